@@ -43,12 +43,24 @@ type world struct {
 const settle = 8 * time.Second
 
 func (w *world) addNode() (*node, error) {
+	n, err := w.newNode("127.0.0.1:0", -1)
+	if err == nil {
+		w.nodes = append(w.nodes, n)
+	}
+	return n, err
+}
+
+// newNode creates a peer bound to `bind` that joins through some node other than `except`.
+func (w *world) newNode(bind string, except int) (*node, error) {
 	var known []string
-	if len(w.nodes) > 0 {
-		known = []string{w.nodes[0].peer.Self().Address()}
+	for i, m := range w.nodes {
+		if i != except {
+			known = []string{m.peer.Self().Address()}
+			break
+		}
 	}
 	reg := prometheus.NewRegistry()
-	p, err := cluster.Create(promslog.NewNopLogger(), reg, "127.0.0.1:0", "", known, false,
+	p, err := cluster.Create(promslog.NewNopLogger(), reg, bind, "", known, false,
 		cluster.DefaultPushPullInterval, 50*time.Millisecond, 2*time.Second, 2*time.Second,
 		cluster.DefaultProbeTimeout, cluster.DefaultProbeInterval, nil, false, "", "")
 	if err != nil {
@@ -67,9 +79,7 @@ func (w *world) addNode() (*node, error) {
 	if err := p.Join(cluster.DefaultReconnectInterval, cluster.DefaultReconnectTimeout); err != nil {
 		return nil, err
 	}
-	n := &node{peer: p, sil: s, nfl: l}
-	w.nodes = append(w.nodes, n)
-	return n, nil
+	return &node{peer: p, sil: s, nfl: l}, nil
 }
 
 func (n *node) hasSil(id string) bool {
@@ -139,6 +149,63 @@ func (w *world) exec(line string) string {
 		w.gkeys = append(w.gkeys, gk)
 		c := w.waitAll(func(n *node) bool { return n.hasLog(gk) })
 		return fmt.Sprintf("seen=%d/%d", c, len(w.nodes))
+	case "rejoin":
+		// node i is killed (no leave is announced) and a NEW instance (new random name, empty state) starts on the same
+		// address at once, as a restarted process does; the others learn of the new name by gossip and of the old name's
+		// death by probing, in either order
+		i, _ := strconv.Atoi(t[1])
+		addr := w.nodes[i].peer.Self().Address()
+		oldName := w.nodes[i].peer.Name()
+		if err := w.nodes[i].peer.VerifCrash(); err != nil {
+			return "error:" + hx.Hex(err.Error())
+		}
+		var n *node
+		var err error
+		for attempt := 0; attempt < 100; attempt++ { // the port is free again a moment after the shutdown
+			if n, err = w.newNode(addr, i); err == nil {
+				break
+			}
+			time.Sleep(50 * time.Millisecond)
+		}
+		if err != nil {
+			return "error:" + hx.Hex(err.Error())
+		}
+		w.nodes[i] = n
+		// until every member lists exactly the live names (the old name has been declared dead everywhere)
+		deadline := time.Now().Add(40 * time.Second)
+		for time.Now().Before(deadline) {
+			ok := true
+			for _, m := range w.nodes {
+				ok = ok && m.peer.ClusterSize() == len(w.nodes)
+				for _, p := range m.peer.Peers() {
+					ok = ok && p.Name() != oldName
+				}
+			}
+			if ok {
+				break
+			}
+			time.Sleep(50 * time.Millisecond)
+		}
+		// the restarted instance obtains the current state through the full-state exchange
+		want := len(w.sils) + len(w.gkeys)
+		dl := time.Now().Add(settle)
+		for {
+			have := 0
+			for _, id := range w.sils {
+				if n.hasSil(id) {
+					have++
+				}
+			}
+			for _, gk := range w.gkeys {
+				if n.hasLog(gk) {
+					have++
+				}
+			}
+			if have == want || time.Now().After(dl) {
+				return fmt.Sprintf("has=%d/%d members=%d", have, want, n.peer.ClusterSize())
+			}
+			time.Sleep(20 * time.Millisecond)
+		}
 	case "join":
 		n, err := w.addNode()
 		if err != nil {
@@ -249,6 +316,12 @@ func TestEngine(t *testing.T) {
 		}
 		ops = append(ops, "join")
 		ops = append(ops, fmt.Sprintf("sil %d big", r.IntN(n+1)), fmt.Sprintf("nfl %d small", r.IntN(n+1)))
+		if id%2 == 0 {
+			// a member crashes and restarts on its address under a new name; afterwards updates of both sizes from a
+			// surviving member must reach it
+			k := 1 + r.IntN(n)
+			ops = append(ops, fmt.Sprintf("rejoin %d", k), "sil 0 big", "nfl 0 big", "sil 0 small", fmt.Sprintf("sil %d big", k))
+		}
 		runCase(t, tr, fmt.Sprintf("case %d n=%d", id, n), ops)
 	}
 }
